@@ -18,7 +18,7 @@ RULE = ('pools of ~40 keys (str/bytes/int in and out of int64/float incl. -0.0, 
         '= ordered key pairs judged; distinct_nontrivial = distinct (identity-class pair, same/different, disk, '
         'protocol) cells plus distinct (flavour, pair kind) cells')
 DISTINCT = ('pair_cells', 'flavour_cells')
-REQUIRED = ('pools_in_a_fanout_read_through_reopened_handle', 'pools_in_a_fanout_read_through_unpickled_handle', 'pools_in_a_cache_read_through_reopened_handle', 'pools', 'pairs_equal_identity', 'pairs_distinct_identity', 'flavour_cases', 'iteration_keys_checked',
+REQUIRED = ('flavour_cases_with_ttl', 'pools_in_a_fanout_read_through_reopened_handle', 'pools_in_a_fanout_read_through_unpickled_handle', 'pools_in_a_cache_read_through_reopened_handle', 'pools', 'pairs_equal_identity', 'pairs_distinct_identity', 'flavour_cases', 'iteration_keys_checked',
             'jsondisk_pools', 'pickle_alias_candidates', 'keys_spelled_in_another_interpreter',
             'shadow_races_with_swap_before_file_open')
 ASSUMPTIONS = ('identity rule: str by code points, bytes by content, int64 and float by exact numeric value, '
@@ -143,7 +143,7 @@ def check_pool(dc, sc, res, rng, proto, disk_name, keys, label):
     try:
         for n, k in enumerate(keys):
             try:
-                (first if n % 2 else cache).set(k, n)
+                (first if n % 2 else cache).set(k, n, expire=None if n % 3 else 3600)
             except Exception as exc:      # noqa: BLE001
                 res.violation('set(%r) raised %s' % (k, type(exc).__name__), {'label': label, 'key': k})
                 continue
@@ -253,7 +253,11 @@ def check_flavours(dc, sc, res, rng, proto, a, b, label):
         d = sc.new()
         cache = dc.Cache(d, disk_pickle_protocol=proto)
         try:
-            cache.set(a, 10, tag='ta')
+            # (the stored entry carries a time-to-live that is far from over in half of the cases: how long an entry
+            # lives has nothing to do with which key addresses it)
+            ttl = 3600 if rng.random() < 0.5 else None
+            cache.set(a, 10, tag='ta', expire=ttl)
+            res.count('flavour_cases_with_ttl' if ttl else 'flavour_cases_without_ttl')
             res.count('flavour_cases')
             res.count('evaluations')
             res.seen('flavour_cells', (fl, id_class(a), id_class(b), same_id))
